@@ -35,7 +35,7 @@ func verifC13Refcount() {
 	closedH := make([]bool, n)
 	open := n
 	peer := verifMuxAddrs[0]
-	nOps := 4 + 2*verifTier()
+	nOps := 4 + verifTier()
 	for op := 0; op < nOps; op++ {
 		hi := verifChoice(n)
 		switch verifChoice(3) {
